@@ -18,18 +18,19 @@ const (
 	tInt  = 2 // int
 	tMap  = 3 // map[string]any (output of a Parallel member, input of the join lambda)
 	tIn   = 4 // struct In{X,Y string} (target of workflow field mappings)
+	tAny  = 5 // any: the element type of map[string]any (only as the type of a mapped field)
 )
 
 // Op is one call of a front end.
 //
-//	Graph:    L (AddLambdaNode), P (AddPassthroughNode), E (AddEdge), B (AddBranch), K (Compile)
-//	Chain:    CL (AppendLambda), CP (AppendPassthrough), CPar (AppendParallel), CBr (AppendBranch), K
-//	Workflow: WN (Add*Node / End() / existing handle + AddInput…), WB (AddBranch), K
+//	Graph:    L (AddLambdaNode), P (AddPassthroughNode), GN (AddGraphNode), E (AddEdge), B (AddBranch), K (Compile)
+//	Chain:    CL (AppendLambda), CP (AppendPassthrough), CG (AppendGraph), CPar (AppendParallel), CBr (AppendBranch), K
+//	Workflow: WN (Add*Node / End() / existing handle + AddInput…; Typ "G" = AddGraphNode), WB (AddBranch), K
 type Op struct {
 	K string `json:"k"`
 
 	Key string `json:"key,omitempty"` // node key (L, P, WN)
-	Typ string `json:"typ,omitempty"` // lambda type: s (string→string), i (int→int), si, is, m (map→string), S (In→string); WN: "" = use existing handle
+	Typ string `json:"typ,omitempty"` // lambda type: s (string→string), i (int→int), si, is, m (map→string), S (In→string), sS (string→In); WN: "" = use existing handle, P passthrough, G nested graph
 	H   string `json:"h,omitempty"`   // add-node option variant, see hSpec
 
 	From string   `json:"from,omitempty"` // E, B, WB
@@ -41,15 +42,42 @@ type Op struct {
 
 	In []WIn `json:"in,omitempty"` // WN: inputs declared on the handle
 
-	Opt string `json:"opt,omitempty"` // K: "", all, any, max, all+max, any+max, name, store
+	Opt string `json:"opt,omitempty"` // K: "+"-separated list of all, any, max, name, store (in that order of options)
+
+	Sub *Sub `json:"sub,omitempty"` // GN, CG, WN with Typ "G": the graph that is added as a node
+}
+
+// Sub is a graph / chain / workflow (string→string, no state) that is built by its own call sequence
+// (without Compile) and then added as a node, optionally with WithGraphCompileOptions(Opt...).
+type Sub struct {
+	FE     string `json:"front_end"`
+	Ops    []Op   `json:"-"`
+	Text   string `json:"calls"`
+	HasOpt bool   `json:"with_compile_options,omitempty"`
+	Opt    string `json:"compile_options,omitempty"`
+}
+
+func newSub(fe string, ops []Op, hasOpt bool, opt string) *Sub {
+	return &Sub{FE: fe, Ops: ops, Text: opsText(ops), HasOpt: hasOpt, Opt: opt}
+}
+
+func (s *Sub) String() string {
+	t := "{" + s.FE + ": " + s.Text
+	if s.HasOpt {
+		t += " | opts(" + s.Opt + ")"
+	}
+	return t + "}"
 }
 
 // WIn is one AddInput / AddInputWithOptions(WithNoDirectDependency) / AddDependency call.
 type WIn struct {
 	From  string `json:"from"`
-	Field string `json:"field,omitempty"` // ToField(Field); "" = whole output
-	Mode  string `json:"mode,omitempty"`  // "" AddInput, "nd" no direct dependency, "dep" AddDependency
+	Field string `json:"field,omitempty"`      // ToField(Field); "" = whole input of the node
+	FromF string `json:"from_field,omitempty"` // FromField(FromF) (with Field: MapFields(FromF, Field)); "" = whole output of the predecessor
+	Mode  string `json:"mode,omitempty"`       // "" AddInput, "nd" no direct dependency, "dep" AddDependency
 }
+
+func (in WIn) mapped() bool { return in.Field != "" || in.FromF != "" }
 
 func (o Op) String() string {
 	var b strings.Builder
@@ -74,6 +102,18 @@ func (o Op) String() string {
 				b.WriteString(",")
 			}
 			b.WriteString(o.H)
+		}
+		b.WriteString(")")
+	case "GN", "CG":
+		b.WriteString(o.K + "(" + o.Key)
+		if o.H != "" {
+			if o.Key != "" {
+				b.WriteString(",")
+			}
+			b.WriteString(o.H)
+		}
+		if o.Sub != nil {
+			b.WriteString(o.Sub.String())
 		}
 		b.WriteString(")")
 	case "E":
@@ -102,6 +142,12 @@ func (o Op) String() string {
 			b.WriteString(o.Typ)
 		}
 		b.WriteString("(" + o.Key)
+		if o.H != "" {
+			b.WriteString("," + o.H)
+		}
+		if o.Sub != nil {
+			b.WriteString(o.Sub.String())
+		}
 		for i, in := range o.In {
 			if i == 0 {
 				b.WriteString("<")
@@ -115,6 +161,9 @@ func (o Op) String() string {
 				b.WriteString("!")
 			}
 			b.WriteString(in.From)
+			if in.FromF != "" {
+				b.WriteString("." + in.FromF)
+			}
 			if in.Field != "" {
 				b.WriteString(":" + in.Field)
 			}
@@ -135,6 +184,7 @@ type Seq struct {
 	Family  string `json:"family"`
 	Prelude []Op   `json:"-"`
 	Ops     []Op   `json:"-"`
+	Reps    int    `json:"attempts,omitempty"` // on fresh objects; 0 = the default
 	// for the witness
 	Text string `json:"calls"`
 }
@@ -186,6 +236,8 @@ func lambdaTypes(typ string) (int, int) {
 		return tMap, tStr
 	case "S":
 		return tIn, tStr
+	case "sS":
+		return tStr, tIn
 	}
 	return tStr, tStr
 }
@@ -204,12 +256,15 @@ func condType(c string) int {
 //	preV / postV    state handler whose value type is not the node's type
 //	                (for a passthrough node: `string` instead of `any`)
 //	key             WithNodeKey("k1")  (legal in chains only)
+//	ok / ik / iok   WithOutputKey("k") / WithInputKey("k") / both: that side of the node is a map[string]any
 type hSpec struct {
 	pre, post  bool
 	wrongState bool
 	wrongValue bool
 	nodeKey    string
 	needState  bool
+	inKey      bool
+	outKey     bool
 }
 
 func parseH(h string) hSpec {
@@ -229,6 +284,12 @@ func parseH(h string) hSpec {
 		s.post, s.wrongValue = true, true
 	case "key":
 		s.nodeKey = "k1"
+	case "ok":
+		s.outKey = true
+	case "ik":
+		s.inKey = true
+	case "iok":
+		s.inKey, s.outKey = true, true
 	}
 	s.needState = s.pre || s.post
 	return s
